@@ -170,7 +170,10 @@ def run(ctx, prog):
         lock = [c.bb for c in f.calls if c.is_('re:RwLock::write$') and c.args and flow.render(of.of_operand(c.args[0])).endswith('QueryHashCache.state')]
         ok = bool(bump) and bool(lock) and all(any(f.dominates(b_, l_) for b_ in bump) for l_ in lock)
         ctx.inst('C07.R2', f.short, 'generation bumped before the state lock', ok, 'fetch_add blocks %s, state.write() blocks %s' % (bump, lock))
-    removers = set()
+    # every function that takes entries out of the cache map also takes them out of the reverse index: a direct HashMap::remove(cache, key) is followed, on the
+    # Some edge, by unindex_entry_docs on every path to a return; clear() empties the reverse index too. Which functions those are is evidence, not a verdict
+    # (an eviction that goes through the remove_entry helper is the same behaviour as the inline form)
+    removers = {}
     for b in prog.bodies.values():
         if 'query_hash_cache' not in b.id:
             continue
@@ -179,12 +182,30 @@ def run(ctx, prog):
             if c.callee and re.search(r'HashMap<.*>::(remove|clear|retain|drain)$|HashMap::(remove|clear|retain|drain)$', c.callee) and c.args:
                 og = og or flow.Origin(b)
                 if re.search(r'QueryCacheState\.cache\)*$', flow.render(og.of_operand(c.args[0]))):
-                    removers.add(b.short.split('::{')[0])
-    want = {'query_hash_cache::QueryHashCache::clear', 'query_hash_cache::QueryHashCache::remove_entry', 'query_hash_cache::QueryHashCache::insert_with_k_scoped_internal'}
-    ctx.inst('C07.R2', 'QueryCacheState.cache', 'removers = {clear, remove_entry, eviction in insert}', removers == want, 'removers: %s' % sorted(removers))
+                    removers.setdefault(b.short.split('::{')[0], []).append((b, c))
+    for fn_, sites in sorted(removers.items()):
+        for k_, (b, c) in enumerate(sites):
+            meth = c.callee.rsplit('::', 1)[-1]
+            if meth == 'remove':
+                un_ = [x.bb for x in b.calls_to('QueryHashCache::unindex_entry_docs')]
+                some_e = util.option_edges_of_call(b, c, 'Some') if hasattr(util, 'option_edges_of_call') else None
+                if some_e is None:
+                    # Some edges of the removed value: switches whose predicate is variant(<this remove>) = Some
+                    ovb = flow.Origin(b)
+                    some_e = [(i_, tg) for i_, blk in enumerate(b.blocks) if blk['t']['k'] == 'switch' and i_ in b.live_blocks() and i_ in (b.reach([c.bb]) | {c.bb})
+                              for tg, p_ in flow.switch_edge_predicates(b, i_, ovb) if re.match(r'^variant\(HashMap::remove\(.*QueryCacheState\.cache.*\)\) = Some$', p_)]
+                starts = [tg for _, tg in some_e]
+                leak = (not some_e) or any(x in (b.reach(starts, avoid_blocks=un_) | (set(starts) - set(un_))) for x in b.return_blocks())
+                ctx.inst('C07.R2', fn_, 'cache removal #%d is followed by unindexing the removed entry' % k_, bool(un_) and not leak,
+                         'HashMap::remove(cache) at %s: Some edges %d, unindex calls %d, a return is reachable without unindexing: %s' % (c.loc, len(some_e), len(un_), leak))
+            else:
+                og2 = flow.Origin(b)
+                also = [x for x in b.calls if x.callee and re.search(r'::(clear|retain|drain)$', x.callee) and x.args and 'doc_to_query_keys' in flow.render(og2.of_operand(x.args[0]))]
+                ctx.inst('C07.R2', fn_, 'cache %s #%d also empties the reverse index' % (meth, k_), bool(also), '%s(cache) at %s; reverse index: %s' % (meth, c.loc, [flow.short(x.callee) for x in also]))
+    ctx.floor('C07.R2', 'functions removing from the cache map', len(removers), 2, 'clear, remove_entry (+ the inline eviction on the pinned tree)')
     rec = sorted(set(c.body.short.split('::{')[0] for c in prog.callers_of('QueryHashCache::remove_entry')))
-    ctx.inst('C07.R2', 'QueryHashCache::remove_entry', 'callers = {invalidate_doc, invalidate_for_insert}',
-             rec == ['query_hash_cache::QueryHashCache::invalidate_doc', 'query_hash_cache::QueryHashCache::invalidate_for_insert'], 'callers: %s' % rec)
+    ctx.inst('C07.R2', 'QueryHashCache::remove_entry', 'called only from inside the cache', bool(rec) and all(x.startswith('query_hash_cache::QueryHashCache::') for x in rec), 'callers: %s' % rec)
+
 
     # ------------------------------------------------------------------ R3
     ctx.rule('C07.R3', 'conditional store: insert_with_k_scoped_internal re-reads the generation while holding the state write lock and '
@@ -372,7 +393,15 @@ def run(ctx, prog):
     re_ = ctx.body('C07.R5', 'QueryHashCache::remove_entry')
     ctx.inst('C07.R5', re_.short, 'remove_entry unindexes the removed entry', bool(re_.calls_to('QueryHashCache::unindex_entry_docs')), '')
     un = ii.calls_to('QueryHashCache::unindex_entry_docs')
-    ctx.inst('C07.R5', ii.short, 'replaced / evicted entries are unindexed', len(un) >= 2, 'unindex calls: %d (update case, eviction)' % len(un))
+    # the replaced entry (HashMap::insert returned Some(old)) is unindexed in this function; evicted entries are covered by the removal pairing of R2 (inline or helper)
+    oi5 = flow.Origin(ii)
+    rep_e = [(i_, tg) for i_, blk in enumerate(ii.blocks) if blk['t']['k'] == 'switch' and i_ in ii.live_blocks() for tg, p_ in flow.switch_edge_predicates(ii, i_, oi5)
+             if re.match(r'^variant\(HashMap::insert\(.*QueryCacheState\.cache.*\)\) = Some$', p_)]
+    unb = [x.bb for x in un]
+    leak5 = (not rep_e) or any(x in (ii.reach([tg for _, tg in rep_e], avoid_blocks=unb) | (set(tg for _, tg in rep_e) - set(unb))) for x in ii.return_blocks())
+    evict_ok = any(fn_ == ii.short.split('::{')[0] for fn_ in removers) or any(c.callee and prog.resolve_local(c.callee) is not None and prog.resolve_local(c.callee).short.split('::{')[0] in removers for c in ii.calls)
+    ctx.inst('C07.R5', ii.short, 'replaced / evicted entries are unindexed', bool(un) and not leak5 and evict_ok,
+             'replaced-entry edges %d, unindexed on every path: %s; eviction removes through a paired remover: %s' % (len(rep_e), not leak5, evict_ok))
     idoc = ctx.body('C07.R5', 'QueryHashCache::invalidate_doc')
     io = flow.Origin(idoc)
     rm = idoc.calls_to('QueryHashCache::remove_entry')
